@@ -32,6 +32,9 @@ def scope(repo):
 
 
 def run(repo, res):
+    from .common import borrow as _borrow
+
+    _borrow(repo, res, "c32", "R32.2", "R08.5", "(= R32.2) the time metadata of a row is built from that row's own decoded metadata plus its own (mn, vr): no row's output depends on the metadata bytes of other rows")
     res.rule("R08.1", "in every function reachable from the dating API (output assembly excluded) no accessor classified irrelevant data (metadata, schemas, states, populations, provenance, migrations, mutation times/parents, tables) is applied to a tskit-typed value; backstop: no attribute with such a name on any receiver")
     res.rule("R08.2", "site positions are read only as sites_position[<mutations_site>]; num_sites / sites() / Tree.sites() (which expose monomorphic sites) do not appear")
     res.rule("R08.3", "individual linkage (nodes_individual, individuals()) is used only behind a test of the unphased mask, and that mask is ~np.full(num_individuals, singletons_phased)")
